@@ -100,6 +100,32 @@ SIM_CHECKS = {
             'name lookups (C10) and INT32-extreme arguments (C09) are kept out of this profile',
         ],
     },
+    'C09': {
+        'profiles': [('device', 'san')],
+        'runs': {'quick': 60000, 'thorough': 4000000},
+        'batch': {'quick': 500, 'thorough': 5000},
+        'cells': 'c09',
+        'ub': True,
+        'rule': ('Each evaluation is one seeded run of the whole simulated device in the ASan+UBSan build: tz clients of every '
+                 'kind (incl. manual / error), queries of every kind with valid, boundary, far out-of-range, sentinel, INT32-extreme '
+                 'and invalid-component arguments, failing queries repeated 1-3 times and interleaved with valid ones, save / reboot / '
+                 'restore, and the SystemClockLoop with a faulty reference clock (queries at the clock\'s current time, incl. '
+                 'the uninitialised sentinel). Monitors: any sanitizer report (attributed by source location), M2 errors stay '
+                 'errors on every repeat, M3 extended transition-pool high-water < transitionBufSize and < 8, basic dropped-'
+                 'transition counter == 0. A run is non-trivial when some query met a processor in a non-fresh state. '
+                 'distinct_nontrivial counts DISTINCT (query kind, argument class, client kind) tuples executed under sanitizers.'),
+        'assumptions': [
+            'decided here: the history / repetition half of C09 (no crash, no UB, no hang over call histories; errors persist; pools). '
+            'NOT decided: "for any argument values" (all 2^32 epoch seconds, all component tuples) and "every compiler-generated zone" '
+            '- those are input sweeps; a no-history UB met on the way is still reported or listed as a known finding',
+            'only genuine UB classes are enabled (-fsanitize=address,undefined); UB reports are made recoverable and turned into '
+            'verdicts by a __ubsan_on_report hook, ASan errors are fatal and triaged from the in-flight seed',
+            'UBSan reports each source location once per process, so within one batch only the first run reaching a site is attributed',
+        ],
+        'extra_coverage': lambda total: {
+            'highwater_values_seen': sorted(int(x) for x in total['cells'].get('c09.hw', ())),
+        },
+    },
     'C16': {
         'profiles': [('tz-restore', 'plain')],
         'runs': {'quick': 200000, 'thorough': 10000000},
@@ -240,9 +266,29 @@ def run_sim_check(prop, tier, verif_seed, spec=None, runs_override=None):
                 total['samples'].extend(res.samples[:3 - len(total['samples'])])
             if spec.get('bitmap'):
                 total['bitmap'] = total.get('bitmap', 0) | res.bitmap
-            if not res.violations:
-                break
-            v = res.violations[0]
+            events = sorted(res.violations + (res.ubhits if spec.get('ub') else []), key=lambda e: e['run'])
+            handled_known = False
+            while events and events[0].get('ub'):
+                # a recoverable UB report: known call site -> KNOWN-FINDING, otherwise triage it
+                u = events[0]
+                k = K.match_known_ub(prop, u['vclass'], u['file'], u['op_line'])
+                if not k:
+                    break
+                if k['id'] not in known_printed:
+                    print('KNOWN-FINDING: property=%s %s' % (prop, k['what']))
+                    known_printed.add(k['id'])
+                total['counters']['known.' + k['id']] = total['counters'].get('known.' + k['id'], 0) + 1
+                events.pop(0)
+                handled_known = True
+            if not events:
+                if res.violations or not handled_known:
+                    pass
+                # UB hits do not stop batches; if no violation stopped them either, everything was run
+                if not res.violations:
+                    break
+                continue
+            v = events[0]
+            K.IGNORE_UB[:] = [c for c in K.known_ub_classes(prop) if c != v['vclass']]
             kind, info = triage(prop, profile, variant, binary, tier, verif_seed, v,
                                 needs_history_rule=spec.get('needs_history_rule', False),
                                 crash_note_ops=spec.get('crash_note_ops', ()))
